@@ -236,3 +236,38 @@ def check_level_swap_lookup(ctx, F, rule="E-CANON.swap"):
                                 "view: an equal node that has not been moved yet is duplicated"))
     ctx.floor(rule + ".lookup", "node-creating closures of level_swap", n, 1)
     return n
+
+
+def check_id_split(ctx, F, rule="E-CANON.idsplit"):
+    """The index-based manager tells terminals from inner nodes by the node id: ids 0..TERMINALS are terminals, ids from
+    TERMINALS on are inner nodes.  Every comparison of a value with the const parameter `TERMINALS` is `< TERMINALS`
+    (terminal) or `>= TERMINALS` (inner node); `<=` / `>` would treat the first inner node as a terminal (its reference
+    is then released into the terminal store)."""
+    import json
+    n = 0
+    bad = []
+    for fid, m in sorted(F.mir.items()):
+        if not fid.startswith("oxidd_manager_index::"):
+            continue
+        B = cfg.Body(m)
+        for i in sorted(B.reach):
+            b = m["blocks"][i]
+            if b["c"]:
+                continue
+            for s in b["s"]:
+                rv = s.get("rv") or {}
+                if rv.get("k") != "bin" or rv.get("o") not in ("Eq", "Ne", "Lt", "Le", "Gt", "Ge"):
+                    continue
+                a_t = (rv.get("a") or {}).get("c") == "TERMINALS"
+                b_t = (rv.get("b") or {}).get("c") == "TERMINALS"
+                if not (a_t or b_t):
+                    continue
+                n += 1
+                op = rv["o"] if b_t else {"Lt": "Gt", "Gt": "Lt", "Le": "Ge", "Ge": "Le"}.get(rv["o"], rv["o"])
+                if op not in ("Lt", "Ge"):
+                    bad.append("%s (%s): id %s TERMINALS" % (F.nice(fid), F.where(fid), op))
+    ctx.ob(rule, rule, not bad and n >= 4,
+           "%d comparisons of an id with TERMINALS, all `<` / `>=`" % n if not bad and n >= 4 else
+           "terminal / inner-node discrimination by id uses an off-by-one comparison: %s" % "; ".join(bad[:3]) if bad else
+           "only %d comparisons with TERMINALS found (expected >= 4)" % n)
+    return n
